@@ -975,6 +975,11 @@ impl Model {
             Some(c) => c.clone(),
             None => return Err(()),
         };
+        if node.empty_msg && entry != "reply" {
+            // nothing can decode a zero-length message: the call fails before any contract code runs
+            self.fault("bad_message");
+            return Err(());
+        }
         if code.kind == CodeKind::WrappedBare && matches!(entry, "sudo" | "reply" | "migrate") {
             // the wrapper has no such entry point: the call fails before any contract code runs
             self.fault("entry_point_missing");
@@ -1022,9 +1027,9 @@ impl Model {
                 }
                 // remove + write back of the same value: no net change
                 WriteOp::Restore { .. } => {}
-                WriteOp::Bulk { tag, n } => {
+                WriteOp::Bulk { tag, n, salt } => {
                     for i in 0..*n {
-                        kv_after.insert(crate::ops::bulk_key(*tag, i), vec![*tag, (i >> 8) as u8, i as u8, 1]);
+                        kv_after.insert(crate::ops::bulk_key(*tag, i), vec![*tag, (i >> 8) as u8, i as u8, 1, *salt]);
                     }
                 }
                 WriteOp::BulkRemove { tag, n } => {
@@ -1045,7 +1050,7 @@ impl Model {
             sender: sender.to_string(),
             funds: funds.to_vec(),
             nid: node.nid,
-            reply,
+            reply: reply.clone(),
             queries,
             reads,
             post_reads,
@@ -1092,7 +1097,8 @@ impl Model {
             attrs.extend(e.attrs.iter().cloned());
             events.push(Ev { ty: format!("wasm-{}", e.ty), attrs });
         }
-        let mut data = node.data.clone();
+        let echoed = if node.echo_reply_data { reply.as_ref().filter(|r| r.ok).and_then(|r| r.data.clone()) } else { None };
+        let mut data = echoed.or_else(|| node.data.clone());
         if matches!(&data, Some(d) if d.is_empty()) {
             self.probe("present_but_empty_data");
         }
